@@ -33,11 +33,15 @@ type immCfg struct {
 	CaseSens bool
 	Strict   bool
 	Unescape bool
-	ProxyHdr bool // Config.ProxyHeader = X-Real-Ip
+	// Proxy selects how IP() is derived:
+	//  0 remote address; 1 ProxyHeader=X-Real-Ip (value returned as is);
+	//  2 ProxyHeader=X-Forwarded-For + EnableIPValidation (first valid address of the list);
+	//  3 as 2 with TrustProxy on and the peer listed in TrustProxyConfig.Proxies
+	Proxy int
 }
 
 func (c immCfg) String() string {
-	return fmt.Sprintf("custom=%v cs=%v strict=%v unescape=%v proxyhdr=%v", c.Custom, c.CaseSens, c.Strict, c.Unescape, c.ProxyHdr)
+	return fmt.Sprintf("custom=%v cs=%v strict=%v unescape=%v proxy=%d", c.Custom, c.CaseSens, c.Strict, c.Unescape, c.Proxy)
 }
 
 // body kinds
@@ -47,6 +51,7 @@ type immShape struct {
 	Kind string
 	Fwd  bool // X-Forwarded-Proto / X-Forwarded-Host present
 	Port bool
+	CEnc string // a Content-Encoding the framework does not decode (json/xml/cbor bodies only), "" = none
 	Len  map[string]int
 }
 
@@ -62,6 +67,8 @@ type immReq struct {
 	Target string
 	Path   string
 	Host   string // Host header
+	CType  string // Content-Type as sent (contains upper-case letters)
+	Accept string
 	Proto  string // HTTP/1.1 or HTTP/1.0 (with Connection: keep-alive)
 	FProto string // X-Forwarded-Proto value when Shape.Fwd
 	Body   []byte // as sent
@@ -74,6 +81,10 @@ const immLower = gen.Lower + gen.Digits
 
 func genShape(r *gen.Rand) *immShape {
 	sh := &immShape{Kind: gen.Pick(r, immKinds), Fwd: r.Chance(1, 3), Port: r.Bool(), Len: map[string]int{}}
+	switch sh.Kind {
+	case "json", "xml", "cbor":
+		sh.CEnc = gen.Pick(r, []string{"", "", "identity", "aws-chunked", "x-verif-none"})
+	}
 	for _, f := range immFields {
 		sh.Len[f] = r.Range(1, 24)
 		if r.Chance(1, 10) {
@@ -142,8 +153,9 @@ func genImmReq(r *gen.Rand, sh *immShape, idx int) *immReq {
 	switch sh.Kind {
 	case "none":
 		q.Method = "GET"
+		ctype = "Text/Plain; Charset=UTF-8"
 	case "form":
-		ctype = "application/x-www-form-urlencoded"
+		ctype = "application/x-www-form-urlencoded; Charset=UTF-8"
 		q.Plain = []byte("fs=" + v["fs"] + "&fb=" + q.Num["fb"] + "&fl=" + v["fl0"] + "&fl=" + v["fl1"] + "&fv=" + v["fv"])
 	case "multipart":
 		const bd = "XbOuNdArYx"
@@ -160,13 +172,13 @@ func genImmReq(r *gen.Rand, sh *immShape, idx int) *immReq {
 		b.WriteString("--" + bd + "--\r\n")
 		q.Plain = b.Bytes()
 	case "json", "gzip-json":
-		ctype = "application/json"
+		ctype = "Application/JSON; Charset=UTF-8"
 		q.Plain = []byte(`{"js":"` + v["fs"] + `","jb":"` + base64.StdEncoding.EncodeToString([]byte(v["jb"])) + `","jl":["` + v["fl0"] + `","` + v["fl1"] + `"]}`)
 	case "xml":
-		ctype = "application/xml"
+		ctype = "Application/XML; Charset=UTF-8"
 		q.Plain = []byte("<X><xs>" + v["fs"] + "</xs><xb>" + v["jb"] + "</xb><xl>" + v["fl0"] + "</xl><xl>" + v["fl1"] + "</xl></X>")
 	case "cbor":
-		ctype = "application/cbor"
+		ctype = "Application/CBOR"
 		b := []byte{0xa3}
 		b = cborText(b, "cs")
 		b = cborText(b, v["fs"])
@@ -200,9 +212,14 @@ func genImmReq(r *gen.Rand, sh *immShape, idx int) *immReq {
 		q.Body = zb.Bytes()
 		raw.WriteString("Content-Encoding: gzip\r\n")
 	}
-	if ctype != "" {
-		raw.WriteString("Content-Type: " + ctype + "\r\n")
+	if sh.CEnc != "" {
+		raw.WriteString("Content-Encoding: " + sh.CEnc + "\r\n")
 	}
+	q.CType = ctype
+	q.Accept = "Text/HTML, Application/JSON;q=0.8, */*;q=0.1"
+	raw.WriteString("Content-Type: " + ctype + "\r\n")
+	raw.WriteString("Accept: " + q.Accept + "\r\nAccept-Language: en-US, De;q=0.5\r\nAccept-Charset: UTF-8\r\nAccept-Encoding: GZip, Br\r\n")
+	raw.WriteString("Range: bytes=0-9\r\nIf-None-Match: W/\"" + v["xc"] + "\"\r\nCache-Control: Max-Age=0\r\nX-Requested-With: XMLHttpRequest\r\n")
 	if q.Method == "POST" {
 		raw.WriteString("Content-Length: " + strconv.Itoa(len(q.Body)) + "\r\n")
 	}
@@ -231,6 +248,7 @@ func (q *immReq) effScheme() string {
 
 type immCapture struct {
 	acc    string
+	phase  string
 	isB    bool
 	ls     string
 	lb     []byte
@@ -262,16 +280,17 @@ func (c *immCapture) was() string {
 }
 
 type capSet struct {
-	req  int
-	ptr  string
-	caps []*immCapture
-	errs []string
+	phase string
+	req   int
+	ptr   string
+	caps  []*immCapture
+	errs  []string
 }
 
 const noExp = "\x00<no expectation>"
 
 func (s *capSet) S(acc, v, exp string) {
-	c := &immCapture{acc: acc, ls: v, cs: strings.Clone(v)}
+	c := &immCapture{acc: acc, phase: s.phase, ls: v, cs: strings.Clone(v)}
 	if exp != noExp {
 		c.exp, c.hasExp = exp, true
 	}
@@ -279,7 +298,7 @@ func (s *capSet) S(acc, v, exp string) {
 }
 
 func (s *capSet) B(acc string, v []byte, exp []byte, has bool) {
-	c := &immCapture{acc: acc, isB: true, lb: v, cb: bytes.Clone(v)}
+	c := &immCapture{acc: acc, phase: s.phase, isB: true, lb: v, cb: bytes.Clone(v)}
 	if has {
 		c.exp, c.hasExp = string(exp), true
 	}
@@ -389,6 +408,8 @@ func capture(c fiber.Ctx, q *immReq, cfg immCfg, s *capSet) {
 		s.S("Queries.value", val, e)
 	}
 	s.S("Get", c.Get("X-Custom"), v["xc"])
+	s.S("Get", c.Get(fiber.HeaderContentType), q.CType)
+	s.S("Get", c.Get(fiber.HeaderAccept), q.Accept)
 	s.S("GetReqHeader[T]", fiber.GetReqHeader[string](c, "X-Custom"), v["xc"])
 	hm := c.GetReqHeaders()
 	hk := make([]string, 0, len(hm))
@@ -404,6 +425,10 @@ func capture(c fiber.Ctx, q *immReq, cfg immCfg, s *capSet) {
 			s.L("GetReqHeaders.value", vals, []string{v["xc"]})
 		case "Hl":
 			s.L("GetReqHeaders.value", vals, []string{v["hl0"], v["hl1"]})
+		case fiber.HeaderContentType:
+			s.L("GetReqHeaders.value", vals, []string{q.CType})
+		case fiber.HeaderAccept:
+			s.L("GetReqHeaders.value", vals, []string{q.Accept})
 		case rhk:
 			s.S("GetReqHeaders.key", k, rhk)
 			s.L("GetReqHeaders.value", vals, []string{v["hkv"]})
@@ -419,15 +444,20 @@ func capture(c fiber.Ctx, q *immReq, cfg immCfg, s *capSet) {
 	// fasthttp pre-parses multipart bodies and Request.Body() re-serialises the parsed form (part
 	// order follows a map): byte equality with what was sent is not promised there — stability only.
 	bodyExp := q.Shape.Kind != "multipart"
-	s.B("Body", c.Body(), q.Plain, bodyExp)
+	// a Content-Encoding the framework does not decode: "identity" means the body as sent; for
+	// other unknown tokens no content is asserted (stability only)
+	s.B("Body", c.Body(), q.Plain, bodyExp && (q.Shape.CEnc == "" || q.Shape.CEnc == "identity"))
 	s.B("BodyRaw", c.BodyRaw(), q.Body, bodyExp)
 	if q.Shape.Kind == "form" || q.Shape.Kind == "multipart" {
 		s.S("FormValue", c.FormValue("fv"), v["fv"])
 	}
 	s.S("FormValue.query", c.FormValue("qx"), v["qx"])
-	if cfg.ProxyHdr {
+	switch cfg.Proxy {
+	case 1:
 		s.S("IP", c.IP(), q.IP[2])
-	} else {
+	case 2, 3:
+		s.S("IP", c.IP(), q.IP[0])
+	default:
 		s.S("IP", c.IP(), "203.0.113.7")
 	}
 	s.L("IPs", c.IPs(), []string{q.IP[0], q.IP[1]})
@@ -462,6 +492,7 @@ func capture(c fiber.Ctx, q *immReq, cfg immCfg, s *capSet) {
 		m := map[string][]string{}
 		s.err("Bind.Header.map", c.Bind().Header(&m))
 		s.L("Bind.Header.map-value", m["Hs"], []string{v["hs"]})
+		s.L("Bind.Header.map-value", m[fiber.HeaderContentType], []string{q.CType})
 		for _, k := range sortedKeys(m) {
 			if k == rhk {
 				s.S("Bind.Header.map-key", k, rhk)
@@ -533,8 +564,16 @@ func immBuild(cfg immCfg, immutable bool, side *immSide) *fiber.App {
 		StrictRouting: cfg.Strict,
 		UnescapePath:  cfg.Unescape,
 	}
-	if cfg.ProxyHdr {
+	switch cfg.Proxy {
+	case 1:
 		fc.ProxyHeader = "X-Real-Ip"
+	case 2, 3:
+		fc.ProxyHeader = fiber.HeaderXForwardedFor
+		fc.EnableIPValidation = true
+		if cfg.Proxy == 3 {
+			fc.TrustProxy = true
+			fc.TrustProxyConfig = fiber.TrustProxyConfig{Proxies: []string{"203.0.113.7"}}
+		}
 	}
 	app := fiber.New(fc)
 	if cfg.Custom {
@@ -549,15 +588,20 @@ func immBuild(cfg immCfg, immutable bool, side *immSide) *fiber.App {
 			return c.SendStatus(599)
 		}
 		q := side.reqs[i]
-		cs := &capSet{req: i}
+		cs := &capSet{req: i, phase: "first-read"}
+		capture(c, q, cfg, cs)
+		// what a handler ordinarily does next: read-only helpers. None of them may disturb a value
+		// already handed out, nor what a later read returns.
+		readOnlyHelpers(c)
+		cs.phase = "read-after-helpers"
 		capture(c, q, cfg, cs)
 		// correctness inside the handler (both modes), and stability until the handler returns
 		for _, cp := range cs.caps {
 			if cp.hasExp && cp.was() != cp.exp {
-				side.wrong = append(side.wrong, map[string]any{"accessor": cp.acc, "got": cp.was(), "want": cp.exp, "request": i})
+				side.wrong = append(side.wrong, map[string]any{"accessor": cp.acc, "got": cp.was(), "want": cp.exp, "request": i, "phase": cp.phase})
 			}
 			if cp.changed() {
-				side.unstable = append(side.unstable, map[string]any{"accessor": cp.acc, "got": cp.now(), "at_capture": cp.was(), "request": i})
+				side.unstable = append(side.unstable, map[string]any{"accessor": cp.acc, "got": cp.now(), "at_capture": cp.was(), "request": i, "phase": cp.phase})
 			}
 		}
 		side.sets = append(side.sets, cs)
@@ -584,6 +628,34 @@ func sortedKeys[V any](m map[string]V) []string {
 	return ks
 }
 
+// readOnlyHelpers calls the request-inspecting helpers of the context; results are irrelevant.
+func readOnlyHelpers(c fiber.Ctx) {
+	_ = c.Is("json")
+	_ = c.Is("html")
+	_ = c.Is("form")
+	_ = c.Is(".xml")
+	_ = c.Accepts("html", "json", "text/plain")
+	_ = c.AcceptsCharsets("utf-8", "iso-8859-1")
+	_ = c.AcceptsEncodings("gzip", "br")
+	_ = c.AcceptsLanguages("en", "de")
+	_ = c.Fresh()
+	_ = c.Stale()
+	_, _ = c.Range(1000)
+	_ = c.Subdomains()
+	_ = c.Subdomains(1)
+	_ = c.IPs()
+	_ = c.IP()
+	_ = c.XHR()
+	_ = c.Secure()
+	_ = c.IsFromLocal()
+	_ = c.IsProxyTrusted()
+	_ = c.Port()
+	_ = c.Hostname()
+	_ = c.GetRespHeaders()
+	_ = c.Route()
+	_ = c.String()
+}
+
 func trunc(s string) string {
 	if len(s) > 80 {
 		return s[:80] + "…"
@@ -596,7 +668,7 @@ func runImmutable(e *ev.Env) {
 	immCorpus(e)
 	e.Cases("run", e.N(300, 20000), func(c *ev.Case) {
 		r := c.R
-		cfg := immCfg{Custom: r.Chance(1, 3), CaseSens: r.Bool(), Strict: r.Bool(), Unescape: r.Bool(), ProxyHdr: r.Bool()}
+		cfg := immCfg{Custom: r.Chance(1, 3), CaseSens: r.Bool(), Strict: r.Bool(), Unescape: r.Bool(), Proxy: r.Intn(4)}
 		sh := genShape(r)
 		n := gen.Pick(r, []int{1, 3, 10})
 		judgeImm(e, c, cfg, sh, n, r)
@@ -746,7 +818,7 @@ func immCorpus(e *ev.Env) {
 	e.Corpus("one-followup-customctx", func(c *ev.Case) {
 		sh := genShape(c.R)
 		sh.Kind = "form"
-		judgeImm(e, c, immCfg{Custom: true, ProxyHdr: true}, sh, 1, c.R)
+		judgeImm(e, c, immCfg{Custom: true, Proxy: 1}, sh, 1, c.R)
 	})
 	e.Corpus("ten-followups-forwarded", func(c *ev.Case) {
 		sh := genShape(c.R)
